@@ -93,6 +93,33 @@ def run(ctx):
                 dn = v.node(d.node)
                 g = v.guard_for(dn, lambda t: "case_sensitive" in norm(t))
                 ok = ok and g is not None and (g[1] is True) == (norm(g[0].ast).startswith("not "))
+        if not ok and isinstance(x.key, ast.Call):
+            # a helper that produces the key: it must fold the case (at least whenever the section is not case-sensitive)
+            for k_, h in cg.resolve_call(x.key, f):
+                if k_ != "precise":
+                    continue
+                rdh = ReachingDefs(h)
+                rets = [r for r in walk_no_nested(h.node) if isinstance(r, ast.Return) and r.value is not None]
+                good = bool(rets)
+                for r in rets:
+                    v_ = r.value
+                    if normalisation(rdh, v_, r) == {"casefold"}:
+                        continue
+                    if isinstance(v_, ast.IfExp) and "case_sensitive" in norm(v_.test):
+                        neg = norm(v_.test).startswith("not ")
+                        folded_side = v_.body if neg else v_.orelse
+                        if normalisation(rdh, folded_side, r) == {"casefold"}:
+                            continue
+                    if isinstance(v_, ast.Name):
+                        defs_ = rdh.at(r, v_.id) or []
+                        folds_ = [d for d in defs_ if d.kind == "assign" and normalisation(rdh, d.value, d.node) == {"casefold"}]
+                        vh = view(ctx, h)
+                        if folds_ and all(d.kind == "param" for d in defs_ if d not in folds_) and all(
+                                (lambda g_: g_ is not None and (g_[1] is True) == norm(g_[0].ast).startswith("not "))(
+                                    vh.guard_for(vh.node(d.node), lambda t: "case_sensitive" in norm(t))) for d in folds_):
+                            continue
+                    good = False
+                ok = good
         ctx.check(ok, "R3.1", f.qualname, x.node, loc(f, x.node),
                   "the all-forms tag table is accessed (%s) with key `%s` normalised as %s while tags are registered "
                   "case-folded: some spelling of a schema tag is not found (or found under the wrong key)" % (
